@@ -571,6 +571,12 @@ def judge_case(c, meta, m, recheck):
     mf = [feat_from_json(x) for x in me['ok']]
     if not feats_close(space, cfg, real, mf, f32):
       c.tie_break('encode (features)', dict(describe(meta), point=pt), real, mf)
+    if len(real) != sum(widths):
+      # the blocks cannot be told apart any more: the layout itself (one column per continuous / index
+      # feature, one per feasible value [+1 when padded] per one-hot block) is not the documented one
+      c.prop_fail('feature-layout-width', 'the feature vector of %r has %d columns; the documented layout of this space has %d (%s)' % (
+          pt, len(real), sum(widths), widths), dict(describe(meta), point=pt, real=real))
+      continue
     pos = 0
     for p, w in zip(space, widths):
       seg = real[pos:pos + w]; pos += w
@@ -612,7 +618,8 @@ def judge_case(c, meta, m, recheck):
           c.prop_fail(KEY_RLOG if (cd.rlog_absorbs(p, f32) and not VARIANT['stableRlog']) else 'orientation', 'scaled feature of %s=%r (bounds %r..%r, %s) is %r; lower bound must map to 0 and upper bound to 1' % (p['name'], v, lo, hi, p['sc'], x),
                       dict(describe(meta), point=pt))
   # monotonicity over the feasible points of the case (real features)
-  good = [(pt, e) for pt, e in list(zip(meta['pts'], meta['enc']))[:meta['n_feasible_pts']] if not isinstance(e, str)]
+  good = [(pt, e) for pt, e in list(zip(meta['pts'], meta['enc']))[:meta['n_feasible_pts']]
+          if not isinstance(e, str) and len(e) == sum(widths)]
   pos = 0
   for p, w in zip(space, widths):
     if spec_kind(p, cfg) == 'cont' and good:
@@ -678,6 +685,8 @@ def judge_case(c, meta, m, recheck):
       enc_k = meta['enc'][k]
       pos, nonfinite = 0, []
       for p, w in zip(space, widths):
+        if len(enc_k) != sum(widths):
+          break                                 # reported as feature-layout-width above
         if spec_kind(p, cfg) == 'cont' and not math.isfinite(enc_k[pos]) and cd.rlog_absorbs(p, f32) and cfg['scale']:
           nonfinite.append(p['name'])
         pos += w
